@@ -220,7 +220,7 @@ pub fn run(run: &mut Run, args: &Args) {
                 .map(|_| {
                     let ty = g.any_ty_pub(&mut rng);
                     let d = 1 + rng.below(3) as u32;
-                    (g.gen(&mut rng, ty, d), ty)
+                    (g.expr(&mut rng, ty, d), ty)
                 })
                 .collect();
             let q = Query::select(Select { from, where_: None, group: None, proj, distinct: false });
